@@ -44,7 +44,7 @@ FMTS = {"16": (11, 5), "32": (24, 8), "64": (53, 11)}
 FAMILY = {"f2q": "fraction", "q2f": "fraction", "f2b": "bin", "b2f": "bin", "bval": "bin", "f2m": "mpf", "m2f": "mpf",
           "m2e": "expansion", "e2m": "expansion", "m2w": "multiword", "w2m": "multiword"}
 ALL_PARTS = ["f2q", "q2f", "f2b", "b2f", "bval", "f2m", "m2f"]
-NWORKERS = 4
+NWORKERS = 8
 
 
 # ----------------------------------------------------------------------------- plumbing
@@ -326,7 +326,17 @@ def run(ctx):
     ctx.rule = ("evaluations = protocol lines compared between the real utils functions and the Lean model plus property-clause "
                 "evaluations on the real code; non-trivial = finite non-zero float pattern, or an mpf value that is not a special/zero; "
                 "distinct by (format, pattern) / (format, precision, tuple, options)")
+    import time as _time
+    _t0 = _time.time()
+    timing = ctx.notes.setdefault("timing_s", {})
+
+    def lap(name):
+        nonlocal _t0
+        timing[name] = round(_time.time() - _t0, 1)
+        _t0 = _time.time()
+
     broken = ctx.lean_stage(["FAVerif.Props.C13"], THEOREMS)
+    lap("lean_stage")
     rng = ctx.rng
 
     # ---- 0. environment facts the model hard-wires ---------------------------------------
@@ -421,9 +431,11 @@ def run(ctx):
     mpf_cases.append(dict(F="32", prec=53, tup=SPECIALS["nan"], p=None, max_length=None, length=None, cls="special:nan"))
     mpf_cases.append(dict(F="32", prec=53, tup=SPECIALS["nan"], p=None, max_length=None, length=3, cls="special:nan"))
 
+    lap("generate")
     # ---- 2. real code, phase 1 ---------------------------------------------------------------
     try:
         real = real_lines(lines)
+        lap("real_phase1")
     except WorkerCrash as e:
         item = ctx.broken("correspondence:c13-worker", str(e))
         ctx.violation("worker-crash", "the real conversion helpers crashed the worker outside the modelled exception sites: " + str(e)[-400:],
@@ -476,9 +488,11 @@ def run(ctx):
         return
     all_lines = lines + lines2
     all_real = real + real2
+    lap("real_phase2")
 
     # ---- 3. model ---------------------------------------------------------------------------
     model = model_lines(ctx, all_lines)
+    lap("model")
 
     # ---- 4. diff ----------------------------------------------------------------------------
     mism = {}     # family -> list of details
@@ -530,6 +544,7 @@ def run(ctx):
         item = ctx.broken("search:c13-worker", str(e))
         ctx.violation("worker-crash", "the real conversion helpers crashed the search worker: " + str(e)[-400:], dict(kind="crash", stderr=str(e)[-1500:]), broken_item=item)
         return
+    lap("search")
     ctx.evaluations += len(float_cases) * 8 + len(mpf_cases) * 4
     for c in mpf_cases:
         ctx.count("search-mpf:" + c.get("cls", "corpus"))
